@@ -254,9 +254,19 @@ def subscript_gate(chk: Check, rel, qual, table_name, want_keys, gid):
     gets = [n for n in _own_nodes(ctx.func) if isinstance(n, ast.Call) and isinstance(n.func, ast.Attribute)
             and n.func.attr in ("get", "setdefault") and isinstance(n.func.value, ast.Name) and n.func.value.id == table_name]
     ok = keys_ok and bool(subs) and not gets and not any(in_try(s, ctx.func) for s in subs)
+    # (a path that only hands back an entry of a per-instance memo computes nothing: the call that stored the entry went through the
+    # look-up; dominance is asked of the returns that compute)
+    from ..rulelib import memo_read_returns
+    memo_rets = memo_read_returns(ctx.func)
+    computing = [r for r in _own_nodes(ctx.func) if isinstance(r, ast.Return) and not any(r is m for m in memo_rets)]
     for s in subs:
         node = ctx.cfg.node_for(s)
-        if node is None or not ctx.cfg.dominates(node, ctx.cfg.exit):
+        if node is None:
+            ok = False
+        elif memo_rets:
+            if not computing or not all(ctx.cfg.dominates(node, ctx.cfg.node_for(r)) for r in computing):
+                ok = False
+        elif not ctx.cfg.dominates(node, ctx.cfg.exit):
             ok = False
     chk.decide(ok, "K-GATE", gid, subs[0] if subs else (gets[0] if gets else ctx.func),
                f"{table_name}[...] is a subscript of the closed table {sorted(tab.keys())} on every path" if ok else
